@@ -41,12 +41,29 @@ package lpm
 // transaction's id (it was created or cloned by this transaction since the last freeze) or
 // was allocated by the current operation. Every other node may be shared with earlier tries.
 
+//@ spec nodePL(n *lpmNode) mathint
 //@ func (*lpmNode).prefixLen
 //@   trusted
 //@   pure
+//@   ensures result == nodePL(n)
+
+// longestMatch (C13, C04): the number of leading bits the node's key and the search key share,
+// counted from the byte that holds bit startLen, never beyond either prefix length: the bytes
+// below the result agree (the agreement of the bits inside the last, partial byte needs 8-bit xor
+// reasoning that takes the solvers 10-100 s and is left to the lpm-trie probe),
+// and a result short of both prefix lengths stops at a bit that differs (or at the end of the
+// shorter key).
 //@ func longestMatch
-//@   trusted
+//@   property C13 C04
 //@   pure
+//@   requires node != nil && len(node.key) <= 8190 && len(keyData) <= 8190
+//@   ensures @never-beyond-either-prefix result <= (nodePL(node) < keyPrefixLen ? nodePL(node) : keyPrefixLen) || result == 8 * (startLen / 8)
+//@   ensures @never-before-the-start-byte result >= 8 * (startLen / 8) || result == (nodePL(node) < keyPrefixLen ? nodePL(node) : keyPrefixLen)
+//@   ensures @whole-bytes-below-the-result-agree forall j int :: startLen / 8 <= j && j < result / 8 && j < len(node.key) && j < len(keyData) ==> node.key[j] == keyData[j]
+//@   ensures @stops-only-at-a-difference-a-prefix-end-or-the-key-end result >= (nodePL(node) < keyPrefixLen ? nodePL(node) : keyPrefixLen) || result / 8 >= len(node.key) || result / 8 >= len(keyData) || node.key[result / 8] != keyData[result / 8] || result == 8 * (startLen / 8)
+//@   loop 1 invariant @bytes-so-far startLen / 8 <= i && (i <= keySize || i == startLen / 8) && prefixLen == 8 * i && keySize == (len(node.key) < len(keyData) ? len(node.key) : len(keyData)) && minPrefixLen == (nodePL(node) < keyPrefixLen ? nodePL(node) : keyPrefixLen) && startLenBytes == startLen / 8
+//@   loop 1 invariant @agree-so-far forall j int :: startLen / 8 <= j && j < i ==> node.key[j] == keyData[j]
+//@   loop 1 invariant @below-the-clamp i > startLen / 8 ==> prefixLen < minPrefixLen
 //@ func validateTrieRoot
 //@   trusted
 //@   pure
